@@ -19,10 +19,14 @@ pub struct SrcIter<T> {
     consumed: usize,
     calls: u32,
     panic_at: Option<u32>,
+    /// what `size_hint().1` reports: 0 = None, 1 = Some(tight), 2 = Some(usize::MAX) — all honest upper bounds;
+    /// derived from (hint, number of items) so that plans need no extra field (the forked algorithms do not read it)
+    upper_mode: u8,
 }
 impl<T> SrcIter<T> {
     fn new(items: Vec<T>, hint: usize, panic_at: Option<u32>) -> Self {
-        SrcIter { it: items.into_iter(), hint, consumed: 0, calls: 0, panic_at }
+        let upper_mode = ((hint + 2 * items.len()) % 3) as u8;
+        SrcIter { it: items.into_iter(), hint, consumed: 0, calls: 0, panic_at, upper_mode }
     }
 }
 impl<T> Iterator for SrcIter<T> {
@@ -42,7 +46,13 @@ impl<T> Iterator for SrcIter<T> {
         x
     }
     fn size_hint(&self) -> (usize, Option<usize>) {
-        (self.hint.saturating_sub(self.consumed), None)
+        let lower = self.hint.saturating_sub(self.consumed);
+        let upper = match self.upper_mode {
+            0 => None,
+            1 => Some(lower.max(self.it.len())),
+            _ => Some(usize::MAX),
+        };
+        (lower, upper)
     }
 }
 
@@ -396,6 +406,16 @@ impl<'b, T: El + PartialEq, S: SEl> Env<'b, T, S> {
                 }
                 "items"
             }
+            "into_iter_nth" => {
+                // an iterator adaptor the crate does not override: Iterator::nth on the owning iterator
+                let vec = self.bv[v].take().unwrap();
+                let mut it = vec.into_iter();
+                if let Some(x) = it.nth(op.n) {
+                    ret.push(x);
+                }
+                drop(it);
+                "items"
+            }
             "into_bump_slice" => {
                 let vec = self.bv[v].take().unwrap();
                 // the `_mut` flavour must be the same conversion: taken for every other call
@@ -646,6 +666,14 @@ impl<'b, T: El + PartialEq, S: SEl> Env<'b, T, S> {
                         Some(x) => ret.push(x.val()),
                         None => break,
                     }
+                }
+                "items"
+            }
+            "into_iter_nth" => {
+                let vec = self.sv[v].take().unwrap();
+                let mut it = vec.into_iter();
+                if let Some(x) = it.nth(op.n) {
+                    ret.push(x.val());
                 }
                 "items"
             }
